@@ -323,29 +323,74 @@ func checkJoinLayouts(c *core.Ctx, ids map[string]int64) {
 			c.Unknown("LAYOUT", key, 0, "anchor not found")
 			continue
 		}
-		info := fn.Info()
-		var cbs []*ast.FuncLit
-		ast.Inspect(fn.Decl.Body, func(nd ast.Node) bool {
-			if call, ok := nd.(*ast.CallExpr); ok && len(call.Args) == 1 {
-				if op, ok := isTreeOp(p.CalleeName(info, call)); ok && op == "Scan" {
-					if fl, ok := call.Args[0].(*ast.FuncLit); ok {
-						cbs = append(cbs, fl)
+		// the Scan callbacks of the function and of the helpers it hands the work to; a helper's parameters are read
+		// through their bindings at the call site (the record, the side flag, a constant retraction flag)
+		type scanCB struct {
+			lit          *ast.FuncLit
+			fn           *core.FuncRef
+			record, side string
+			consts       map[string]bool // parameters bound to a boolean constant at the call site
+		}
+		// the record and the side flag: the Record parameter and the first bool parameter
+		rootRecord, rootSide := "record", ""
+		for _, f := range fn.Decl.Type.Params.List {
+			for _, nm := range f.Names {
+				switch core.ExprStr(f.Type) {
+				case "Record":
+					rootRecord = nm.Name
+				case "bool":
+					if rootSide == "" {
+						rootSide = nm.Name
 					}
 				}
 			}
-			return true
-		})
-		for i, cb := range cbs {
+		}
+		var cbs []scanCB
+		for _, bf := range helperClosureBound(p, fn) {
+			bf := bf
+			sc := scanCB{fn: bf.fn, record: rootRecord, side: rootSide, consts: map[string]bool{}}
+			if bf.fn != fn {
+				sc.record, sc.side = "", ""
+				for prm, to := range bf.binds {
+					switch to {
+					case rootRecord:
+						sc.record = prm
+					case rootSide:
+						sc.side = prm
+					case "true", "false":
+						sc.consts[prm] = true
+					}
+				}
+			}
+			ast.Inspect(bf.fn.Decl.Body, func(nd ast.Node) bool {
+				if call, ok := nd.(*ast.CallExpr); ok && len(call.Args) == 1 {
+					if op, ok := isTreeOp(p.CalleeName(bf.fn.Info(), call)); ok && op == "Scan" {
+						if fl := funcValueLit(p, bf.fn, call.Args[0]); fl != nil {
+							s2 := sc
+							s2.lit = fl
+							cbs = append(cbs, s2)
+						}
+					}
+				}
+				return true
+			})
+		}
+		for i, scb := range cbs {
 			n++
+			cb := scb.lit
+			if scb.record == "" || scb.side == "" {
+				c.Unknown("LAYOUT", fmt.Sprintf("%s/scan#%d", key, i+1), cb.Pos(), "the helper holding this Scan is not handed the record and the side flag")
+				continue
+			}
 			sub := cb.Type.Params.List[0].Names[0].Name
 			for _, amLeft := range []bool{true, false} {
 				amLeft := amLeft
-				in := newInterp(p, fn)
+				in := newInterp(p, scb.fn)
 				in.Hooks.Loop = func(st *absint.State, loop ast.Stmt) *absint.LoopSpec {
 					return &absint.LoopSpec{Cases: []string{"copy"}, MaxIter: 1, RefStep: func(ref, cs string) string { return ref }}
 				}
 				in.Hooks.Ident = func(st *absint.State, obj types.Object) (absint.Val, bool) {
-					if obj.Name() == "amLeft" {
+					if obj.Name() == scb.side {
 						return absint.Bool(amLeft), true
 					}
 					return nil, false
@@ -400,7 +445,7 @@ func checkJoinLayouts(c *core.Ctx, ids map[string]int64) {
 					if v := o.Field(recs[0], "Values"); v != nil {
 						out = v.Canon()
 					}
-					rec, grp := "record.Values", sub+".GroupKey"
+					rec, grp := scb.record+".Values", sub+".GroupKey"
 					wantLen := []string{"(len(" + rec + ") + len(" + grp + "))", "(len(" + grp + ") + len(" + rec + "))"}
 					if mk != wantLen[0] && mk != wantLen[1] {
 						bad = "the output row must have len(record.Values)+len(" + grp + ") values, is made with " + mk
@@ -428,10 +473,10 @@ func checkJoinLayouts(c *core.Ctx, ids map[string]int64) {
 						bad = fmt.Sprintf("with amLeft=%v the %s row must be filled as [%s]; it is filled as [%s] — the left input's columns must come first", amLeft, kind, strings.Join(want, "; "), strings.Join(got, "; "))
 					}
 					ret := o.Field(recs[0], "Retraction")
-					if kind == "match" && (ret == nil || ret.Canon() != "record.Retraction") {
+					if kind == "match" && (ret == nil || ret.Canon() != scb.record+".Retraction") {
 						bad = "a joined row must carry the retraction flag of the incoming record"
 					}
-					if kind == "padding" && (ret == nil || !absint.IsConst(ret)) {
+					if kind == "padding" && (ret == nil || !(absint.IsConst(ret) || scb.consts[ret.Canon()])) {
 						bad = "a padding row's retraction flag must be a constant (true when the first match arrives, false when the last match is retracted)"
 					}
 				}
@@ -439,42 +484,209 @@ func checkJoinLayouts(c *core.Ctx, ids map[string]int64) {
 			}
 		}
 	}
-	if n < 4 {
-		c.Unknown("LAYOUT", "<scan callbacks>", 0, fmt.Sprintf("only %d Scan callbacks found (1 in StreamJoin, 3 in OuterJoin)", n))
+	if n < 3 {
+		c.Unknown("LAYOUT", "<scan callbacks>", 0, fmt.Sprintf("only %d Scan callbacks found (the joined rows of StreamJoin and OuterJoin, the padded rows of OuterJoin)", n))
 	}
-	// the two padding scans of the outer join: retraction on first match, re-emission after last retraction
-	if fn := p.Func("execution/nodes", "(*OuterJoin).receiveRecord"); fn != nil {
-		var flags []string
-		ast.Inspect(fn.Decl.Body, func(nd ast.Node) bool {
-			is, ok := nd.(*ast.IfStmt)
-			if !ok {
-				return true
-			}
-			cond := core.ExprStr(is.Cond)
-			which := ""
+	checkOuterPaddingTransitions(c, ids)
+}
+
+// checkOuterPaddingTransitions interprets the whole of OuterJoin.receiveRecord for a record that has matches on the
+// other side: is/is not the first record for its key on its own side × leaves/does not leave its side without records
+// for the key × which sides are outer × which side it is on. The walks over the other side's records run their
+// callback once (one abstract stored record). Expected rows, in this order: the padded rows of the other side retracted
+// (flag true) iff first and the other side is outer; the joined row with the record's own flag; the padded rows
+// re-emitted (flag false) iff last and the other side is outer. A row is "padded" when one part was copied into it,
+// "joined" when two were — so it does not matter where the rows are built (in place or in a helper) or how the
+// conditions are spelled.
+func checkOuterPaddingTransitions(c *core.Ctx, ids map[string]int64) {
+	p := c.Prog
+	fn := p.Func("execution/nodes", "(*OuterJoin).receiveRecord")
+	key := "execution/nodes.(*OuterJoin).receiveRecord/padding transitions"
+	if fn == nil {
+		c.Unknown("LAYOUT", key, 0, "anchor not found")
+		return
+	}
+	// the two trees and the flag, by position and type
+	var trees []string
+	amLeftName := ""
+	for _, f := range fn.Decl.Type.Params.List {
+		for _, nm := range f.Names {
+			t := core.ExprStr(f.Type)
 			switch {
-			case strings.HasPrefix(cond, "firstRecordForThatKeyOnThisSide"):
-				which = "first"
-			case strings.HasPrefix(cond, "lastRetractionForThatKeyOnThisSide"):
-				which = "last"
-			default:
-				return true
+			case strings.Contains(t, "tbtree.Generic"):
+				trees = append(trees, nm.Name)
+			case t == "bool":
+				amLeftName = nm.Name
 			}
-			side := strings.Contains(cond, "(s.isOuterLeft && !amLeft) || (s.isOuterRight && amLeft)") || strings.Contains(cond, "(s.isOuterRight && amLeft) || (s.isOuterLeft && !amLeft)")
-			ast.Inspect(is.Body, func(m ast.Node) bool {
-				if call, ok := m.(*ast.CallExpr); ok && p.CalleeName(fn.Info(), call) == "execution.NewRecord" && len(call.Args) == 3 {
-					flags = append(flags, fmt.Sprintf("%s:%s:%v", which, core.ExprStr(call.Args[1]), side))
-				}
-				return true
-			})
-			return true
-		})
-		sortStrings(flags)
-		want := "first:true:true;last:false:true"
-		c.Decide(strings.Join(flags, ";") == want, "LAYOUT", "execution/nodes.(*OuterJoin).receiveRecord/padding transitions", fn.Decl.Pos(), 2,
-			"first match retracts the padded rows of the other side; last retraction re-emits them",
-			"when the first record for a key arrives on one side the padded rows of the other (outer) side must be retracted (flag true), and re-emitted (flag false) when the last one is retracted, both only if the *other* side is an outer side; found "+strings.Join(flags, ";"))
+		}
 	}
+	if len(trees) != 2 || amLeftName == "" {
+		c.Unknown("LAYOUT", key, fn.Decl.Pos(), "expected parameters (…, myRecords, otherRecords tree, amLeft bool, record)")
+		return
+	}
+	mine, other := trees[0], trees[1]
+	bad, scen, paths := "", 0, 0
+	for mask := 0; mask < 32; mask++ {
+		l, r, a, first, last := mask&1 != 0, mask&2 != 0, mask&4 != 0, mask&8 != 0, mask&16 != 0
+		in := newInterp(p, fn)
+		in.MaxPaths = 20000
+		in.Hooks.Inline = nodesInline(p)
+		in.Hooks.Loop = func(st *absint.State, loop ast.Stmt) *absint.LoopSpec {
+			return &absint.LoopSpec{Cases: []string{"x"}, MaxIter: 1, MinIter: 1, RefStep: func(ref, cs string) string { return ref }}
+		}
+		in.Hooks.Field = func(st *absint.State, base absint.Val, sel string) (absint.Val, bool) {
+			switch sel {
+			case "isOuterLeft":
+				return absint.Bool(l), true
+			case "isOuterRight":
+				return absint.Bool(r), true
+			case "TypeID":
+				return absint.Int(ids["TypeIDInt"]), true
+			}
+			return nil, false
+		}
+		in.Hooks.Visit = func(st *absint.State, callee string, recv absint.Val, args []absint.Val) (int, []absint.Val, bool) {
+			if op, ok := isTreeOp(callee); ok && op == "Scan" && len(args) == 1 {
+				st.Emit("SCANSTART", token.NoPos)
+				return 0, []absint.Val{absint.S("STORED")}, true
+			}
+			return 0, nil, false
+		}
+		// the stored record stands for one occurrence: its per-occurrence loop runs once
+		in.Hooks.Cond = func(st *absint.State, atom string) (bool, bool) {
+			if !strings.HasSuffix(atom, " < len(STORED.EventTimes))") {
+				return false, false
+			}
+			iters := 0
+			for _, e := range st.Events {
+				switch e.Name {
+				case "SCANSTART":
+					iters = 0
+				case "OCCURRENCE":
+					iters++
+				}
+			}
+			if iters == 0 {
+				st.Emit("OCCURRENCE", token.NoPos)
+				return true, true
+			}
+			return false, true
+		}
+		in.Hooks.Call = chainCall(recordCtorHook, func(st *absint.State, call *ast.CallExpr, callee string, recv absint.Val, args []absint.Val) (absint.Val, bool) {
+			if op, ok := isTreeOp(callee); ok {
+				rc := ""
+				if recv != nil {
+					rc = recv.Canon()
+				}
+				switch op {
+				case "Get":
+					switch {
+					case rc == other:
+						return absint.Tuple{Elems: []absint.Val{absint.S("OTHERITEM"), absint.Bool(true)}}, true
+					case rc == mine:
+						if first {
+							return absint.Tuple{Elems: []absint.Val{absint.Nil{}, absint.Bool(false)}}, true
+						}
+						return absint.Tuple{Elems: []absint.Val{absint.S("MYITEM"), absint.Bool(true)}}, true
+					}
+					return absint.Tuple{Elems: []absint.Val{absint.S("SUBITEM"), absint.Bool(true)}}, true
+				case "Len":
+					if strings.Contains(rc, "OTHERITEM") {
+						return absint.Int(1), true
+					}
+					if last {
+						return absint.Int(0), true
+					}
+					return absint.Int(1), true
+				case "Scan":
+					return nil, false
+				}
+				return absint.S("treeop"), true
+			}
+			switch callee {
+			case "execution.Expression.Evaluate":
+				return absint.Tuple{Elems: []absint.Val{absint.S("keyval"), absint.Nil{}}}, true
+			case "value:produce":
+				st.Emit("PRODUCE", call.Pos(), args...)
+				return absint.Nil{}, true
+			case "time.Time.After":
+				return absint.S("later"), true
+			}
+			if strings.HasSuffix(callee, "btree.NewGenericOptions") {
+				return absint.S("NEWTREE"), true
+			}
+			return nil, false
+		}, ctorHook(ids), errorfHook)
+		outs, err := runDecl(in, fn, func(st *absint.State, bind func(string, absint.Val)) { bind(amLeftName, absint.Bool(a)) }, "")
+		scen++
+		what := fmt.Sprintf("outerLeft=%v outerRight=%v amLeft=%v first for key=%v last for key=%v", l, r, a, first, last)
+		if err != nil {
+			c.Unknown("LAYOUT", key, fn.Decl.Pos(), what+": "+err.Error())
+			return
+		}
+		otherOuter := (l && !a) || (r && a)
+		for _, o := range outs {
+			if o.Kind != "return" || (len(o.Values) == 1 && isNonNilErr(o.Values[0])) {
+				continue
+			}
+			paths++
+			// rows in order: P+ (padded, flag true), J (joined), P- (padded, flag false)
+			// copies into a row are counted up to the moment it is sent (a helper builds every row at the same place)
+			copies := map[string]int{}
+			var rows []string
+			for _, e := range o.Events {
+				if e.Name == "copy" && len(e.Args) == 2 {
+					d := e.Args[0].Canon()
+					if i := strings.Index(d, "["); i >= 0 {
+						d = d[:i]
+					}
+					copies[d]++
+				}
+				if e.Name != "PRODUCE" || len(e.Args) != 2 {
+					continue
+				}
+				vals, flag := o.Field(e.Args[1], "Values"), o.Field(e.Args[1], "Retraction")
+				if vals == nil || flag == nil {
+					rows = append(rows, "?")
+					continue
+				}
+				ncopies := copies[vals.Canon()]
+				copies[vals.Canon()] = 0
+				switch ncopies {
+				case 1:
+					switch {
+					case absint.IsTrue(flag):
+						rows = append(rows, "P+")
+					case absint.IsFalse(flag):
+						rows = append(rows, "P-")
+					default:
+						rows = append(rows, "P("+flag.Canon()+")")
+					}
+				case 2:
+					rows = append(rows, "J("+flag.Canon()+")")
+				default:
+					rows = append(rows, "?")
+				}
+			}
+			var want []string
+			if first && otherOuter {
+				want = append(want, "P+")
+			}
+			want = append(want, "J(record.Retraction)")
+			if last && otherOuter {
+				want = append(want, "P-")
+			}
+			if strings.Join(rows, " ") != strings.Join(want, " ") {
+				bad = fmt.Sprintf("%s: the rows sent must be [%s] (P+ the other side's padded rows retracted, J the joined row, P- the padded rows re-emitted); they are [%s]", what, strings.Join(want, " "), strings.Join(rows, " "))
+			}
+		}
+	}
+	if paths == 0 && bad == "" {
+		bad = "no successful path through receiveRecord with a match on the other side"
+	}
+	c.Decide(bad == "", "LAYOUT", key, fn.Decl.Pos(), scen,
+		"first match retracts the padded rows of the other side; last retraction re-emits them",
+		"when the first record for a key arrives on one side the padded rows of the other (outer) side must be retracted (flag true), and re-emitted (flag false) when the last one is retracted, both only if the *other* side is an outer side; "+bad)
 }
 
 // checkOuterPadding: the unmatched path.
